@@ -440,6 +440,12 @@ func c11Word(env *core.Env, word string, shape int) {
 		tree = &gen.Expr{K: "bin", Text: "&", Kids: []*gen.Expr{{K: "lit", Text: "'x'"}, w}} // 'x'&<word>
 	case 12:
 		tree = &gen.Expr{K: "bin", Text: "&", Kids: []*gen.Expr{member(pat, "id"), {K: "func", Text: word, Kids: nil}}} // Patient.id&<word>()
+	case 15:
+		tree = &gen.Expr{K: "bin", Text: "=", Kids: []*gen.Expr{member(pat, "id"), member(pat, "id")}} // Patient.id = Patient.id
+	case 16:
+		tree = &gen.Expr{K: "bin", Text: "+", Kids: []*gen.Expr{{K: "func", Text: "count", Recv: true, Kids: []*gen.Expr{member(pat, "name")}}, {K: "unary", Text: "-", Kids: []*gen.Expr{{K: "func", Text: "count", Recv: true, Kids: []*gen.Expr{member(member(pat, "name"), "given")}}}}}}
+	case 17:
+		tree = &gen.Expr{K: "index", Kids: []*gen.Expr{member(pat, "name"), {K: "func", Text: "count", Recv: true, Kids: []*gen.Expr{member(pat, "telecom")}}}} // Patient.name[Patient.telecom.count()]
 	case 13:
 		tree = &gen.Expr{K: "bin", Text: "<", Kids: []*gen.Expr{{K: "lit", Text: "1"}, member(w, "value")}} // 1<<word>.value
 	case 14:
@@ -648,7 +654,7 @@ func runC11(env *core.Env) {
 	}
 	k := 0
 	for _, w := range c11Words {
-		for shape := 0; shape < 15; shape++ {
+		for shape := 0; shape < 18; shape++ {
 			if shape == 12 {
 				continue
 			}
